@@ -127,7 +127,25 @@ def build(scn, pool, log):
                 r = scn["res"][rid]
                 return None if r == NONE else (r // 16 if r % 16 == 0 and rid in ("r1", "r2") else r / 16)
             return rule
-        return Stepwise(pool, mk(scn["base"]), *[(thr / 16 if i % 2 else (thr // 16 if thr % 16 == 0 else thr / 16), mk(rid)) for i, (thr, rid) in enumerate(scn["rules"])], interval=scn["iv"] / 4)
+        rules = [(thr / 16 if i % 2 else (thr // 16 if thr % 16 == 0 else thr / 16), mk(rid)) for i, (thr, rid) in enumerate(scn["rules"])]
+        how = (len(scn["rules"]) + scn["iv"]) % 3
+        if how == 0:
+            return Stepwise(pool, mk(scn["base"]), *rules, interval=scn["iv"] / 4)
+        # the decorator interface: a skeleton from the base rule, rules added one by one; a
+        # template taken while the rules are still being registered must not freeze them
+        from cobald.controller.stepwise import stepwise
+
+        skeleton = stepwise(mk(scn["base"]))
+        skeleton.s()
+        for k, (thr, rule) in enumerate(rules):
+            if k % 2:
+                skeleton.add(supply=thr)(rule)
+            else:
+                skeleton.add(rule, supply=thr)
+            skeleton.s(interval=1)
+        if how == 1:
+            return skeleton(pool, interval=scn["iv"] / 4)
+        return skeleton.s(interval=scn["iv"] / 4) >> pool
     if k == "switch":
         class LoggingLinear(LinearController):
             def regulate(self, interval):
